@@ -113,3 +113,10 @@ package gateway
 //@   loop 1 step own-weight: len(backends) == $head(len(backends)) + 1 ==> backends[len(backends)-1].cl.Weight == (back.Weight != nil ? *back.Weight : 1)
 //@   loop 1 step own-len:    len(backends) == $head(len(backends)) + 1 ==> backends[len(backends)-1].cl.Length == len(backends[len(backends)-1].epready)
 //@ end
+
+// C09 — a Gateway reads its certificates from its own namespace (certRef.namespace
+// is not supported): the namespace handed to the cross-namespace gate is the gateway's
+//@ func (*converter).readCertRef
+//@   props C09
+//@   at call GetTLSSecretPath#1 assert own-ns: $arg1 == namespace && $arg2 == certRef.Name
+//@ end
